@@ -107,7 +107,11 @@ func FetchFn(from interface{}, name string) reflect.Value {
 	case reflect.Map:
 		value := d.MapIndex(reflect.ValueOf(name))
 		if value.IsValid() && value.CanInterface() {
-			return value.Elem()
+			if value.Kind() == reflect.Interface {
+				return value.Elem()
+			}
+			// A map of functions (map[string]func(int) int) holds them as they are.
+			return value
 		}
 	case reflect.Struct:
 		// If struct has not method, maybe it has func field.
